@@ -20,7 +20,7 @@ import elementpath.aliases as ta
 from elementpath.namespaces import XML_ID, XML_LANG
 from elementpath.datatypes import AnyURI, Float, DayTimeDuration, YearMonthDuration, \
     StringProxy, AnyAtomicType, Duration
-from elementpath.helpers import get_double
+from elementpath.helpers import get_double, round_number
 from elementpath.xpath_nodes import XPathNode, ElementNode, TextNode, CommentNode, \
     ProcessingInstructionNode, DocumentNode, EtreeElementNode
 from elementpath.xpath_context import XPathSchemaContext
@@ -303,7 +303,7 @@ def evaluate__substring(self: XPathFunction, context: ta.ContextType = None) -> 
         else:
             raise self.error('FORG0006', "the second argument must be xs:numeric") from None
     else:
-        start = int(round(start)) - 1
+        start = int(round_number(start)) - 1
 
     if len(self) == 2:
         return item[max(start, 0):]
@@ -321,7 +321,7 @@ def evaluate__substring(self: XPathFunction, context: ta.ContextType = None) -> 
         if math.isinf(length):
             return item[max(start, 0):]
         else:
-            stop = start + int(round(length))
+            stop = start + int(round_number(length))
             return item[slice(max(start, 0), max(stop, 0))]
 
 
